@@ -922,8 +922,10 @@ static int write_table(void *context, cif_value_tp *table_value) {
                 /*
                  * The space needed is reckoned in code units, as write_quoted() does; counting code points here made
                  * a key containing supplementary characters appear to fit when its closing colon no longer did.
+                 * Room is left for triple-quote delimiters (six characters) plus the colon, since a key containing
+                 * both kinds of quotation mark is written triple-quoted.
                  */
-                if ((u_strlen(*key) > (LINE_LENGTH(context) - (LAST_COLUMN(context) + 4)))
+                if ((u_strlen(*key) > (LINE_LENGTH(context) - (LAST_COLUMN(context) + 8)))
                         && !write_newline(context)) {
                     FAIL(soft, CIF_ERROR);
                 }
